@@ -39,6 +39,7 @@ for d in sorted(glob.glob(os.path.join(ROOT, 'seeded', 'C*_*'))):
                  'no_failing_input_found': any('no-failing-input-found' in l for l in lines)}
   finally:
     subprocess.run(['git', '-C', '/repo', 'checkout', '--', '.'])
+    subprocess.run(['git', '-C', ROOT, 'checkout', '-q', '--', f'evidence/{prop}.json'])
   print(name, out[name], flush=True)
 path = os.path.join(ROOT, 'seeded', 'RESULTS.json')
 old = {}
